@@ -176,6 +176,9 @@ theorem stripMarksL_of_clean : ∀ vs : List Payload, containsMarkedL vs = false
     simp [stripMarksL, stripMarks_of_clean v h.1, stripMarksL_of_clean vs h.2]
 end
 
+theorem withMarks_def (p : Payload) (ms : List String) :
+    p.withMarks ms = if (unionMarks p.marks1 ms).isEmpty then p else .marked (unionMarks p.marks1 ms) p.unmark1 := rfl
+
 theorem stripMarks_unmark1 (p : Payload) : stripMarks p.unmark1 = stripMarks p := by
   cases p <;> simp [unmark1, stripMarks]
 
